@@ -18,13 +18,16 @@ Print Assumptions C16_verbatim.
 Theorem C16_reference_roundtrip : forall r t rest, wf_ref r -> terminator t = true ->
   parse_ref (tl (render_ref r) ++ t :: rest) = Some (r, [t], rest).
 Proof. exact parse_ref_ok. Qed.
+Print Assumptions C16_reference_roundtrip.
 
 (** print.once prints at most once per run; print.onmatch only on matching lines; a plain print once per execution *)
 Theorem C16_once : forall q ls, p_once q = true -> forall h, (length (filter (fun b => b) (print_run q h ls)) <= (if h then 0 else 1))%nat.
 Proof. exact once_at_most_once. Qed.
+Print Assumptions C16_once.
 Theorem C16_onmatch : forall q ls, p_onmatch q = true -> forall h,
   Forall (fun mp : bool * bool => snd mp = true -> fst mp = true) (combine ls (print_run q h ls)).
 Proof. exact onmatch_only_matching. Qed.
+Print Assumptions C16_onmatch.
 Theorem C16_plain : forall ls h, print_run (mkPq false false) h ls = map (fun _ => true) ls.
 Proof. exact plain_every_line. Qed.
 Print Assumptions C16_once.
@@ -35,6 +38,7 @@ Theorem C16_adjacent_refuted :
   let t := [36;46;104;101;97;100;101;114;115;46;97;44;36;46;104;101;97;100;101;114;115;46;98] in
   print_model true e t = Some [49; 50] /\ print_model false e t = Some [49; 44; 50].
 Proof. exact adjacent_refuted. Qed.
+Print Assumptions C16_adjacent_refuted.
 
 (** D9b (open finding): a reference immediately followed by another reference's '$' *)
 Theorem C16_touching_refuted :
@@ -42,6 +46,7 @@ Theorem C16_touching_refuted :
   let t := [36;46;118;97;114;105;97;98;108;101;115;46;120;36;46;104;101;97;100;101;114;115;46;98] in
   print_model false e t = Some [49; 36; 46; 104; 101; 97; 100; 101; 114; 115; 46; 98].
 Proof. exact touching_refuted. Qed.
+Print Assumptions C16_touching_refuted.
 
 Example C16_nonvacuous :
   (* "a=$.headers.a, k=$.variables.t.k; n=$.variables.s.length." *)
